@@ -1311,6 +1311,7 @@ static void job(int j) {
         std::vector<int> pair; pair.push_back(ca); pair.push_back(cb);
         size_t ord = 0;
         std::vector<uintptr_t> conf = union_conflicts(pair, &ord);
+        if (getenv("C18_SELFTEST_BLIND")) conf.clear();      // self-test of the broken-check path: pretend stage 1 saw nothing
         bool dependent = !conf.empty();
         ExploreStats st;
         if (dependent) st = explore(pair, conf, kBound, cap, false, false);
